@@ -128,6 +128,16 @@
         first ([fails_of_no_succ] derives failure from termination when only non-success is known);
         by induction on the fuel of the specification; the constraints by induction on the typed tree.
 
+    (8') round 2 -- THE CONVERSE WITH A DOCTYPE, so that (7) is tight on simple entities:
+          doctype_exactly_wellformed_partial :
+            forall s, strict_cm s = true -> conv_hyps s = true ->
+              (wf s = true <-> ((exists d, from_raw s = OOk ([], d)) /\ KnownD04_doc s = false /\ KnownNS s = false))
+        On documents without external subset (or standalone), without parameter-entity declarations, with simple
+        general entities and QNames inside content models (all decidable on the specification's parse:
+        [conv_hyps], [strict_cm]; Properties/C01.v (j)), the model accepts EXACTLY the namespace-well-formed
+        documents outside findings D04 and WFNS20-23.  The hypotheses are needed: each one fences off a
+        difference in the OTHER direction (well-formed documents rejected), see Properties/C01.v (h), (i).
+
     Missing for the full conditional theorem
       forall s d, Known_C02 s = false -> from_raw s = OOk ([], d) -> wf s = true :
     entity values whose markup has entity references in attribute values, for which the
@@ -139,7 +149,8 @@ From XmlRs Require Import Base.CPred Spec.XmlChars Spec.XmlWF Model.Peg Gen.Gram
   Proofs.XmlWFSyntaxLex Proofs.XmlWFSyntaxElem Proofs.XmlWFSyntaxDoc Proofs.XmlWFSyntaxCheck
   Proofs.XmlWFSyntaxDtd Proofs.XmlWFSyntaxDtdElem Proofs.XmlWFSyntaxDtdDoc Proofs.XmlWFSyntaxDtdCheck
   Proofs.XmlWFSyntaxEntRec Proofs.XmlWFSyntaxDtdFull Proofs.XmlWFSyntaxEntMarkup Proofs.XmlWFSyntaxDtdMarkup
-  Proofs.XmlWFSyntaxConvLex Proofs.XmlWFSyntaxConvElem Proofs.XmlWFSyntaxConvDoc Proofs.XmlWFSyntaxConvCheck.
+  Proofs.XmlWFSyntaxConvLex Proofs.XmlWFSyntaxConvElem Proofs.XmlWFSyntaxConvDoc Proofs.XmlWFSyntaxConvCheck
+  Proofs.XmlWFSyntaxConvDtdDoc Proofs.XmlWFSyntaxConvDtdCheck.
 Import ListNotations.
 
 (** ** (3) *)
@@ -334,6 +345,11 @@ Theorem nodoctype_exactly_wellformed_partial : forall s,
   ((exists d, from_raw s = OOk ([], d)) /\ nodoctype s = true /\ KnownD04_nodoctype s = false /\ KnownNS s = false).
 Proof. exact nodoctype_language. Qed.
 
+Theorem doctype_exactly_wellformed_partial : forall s, strict_cm s = true -> conv_hyps s = true ->
+  (wf s = true <-> ((exists d, from_raw s = OOk ([], d)) /\ KnownD04_doc s = false /\ KnownNS s = false)).
+Proof. exact doctype_language. Qed.
+
+Print Assumptions doctype_exactly_wellformed_partial.
 Print Assumptions wellformed_nodoctype_is_accepted_partial.
 Print Assumptions nodoctype_exactly_wellformed_partial.
 Print Assumptions wf_is_wf_xml10.
